@@ -102,12 +102,17 @@ def lean_ops(case):
     return ops
 
 
-def _locus(vars_, k, what, f4=False):
+def _locus(vars_, k, what, f4=False, extra=""):
     if f4:
         return "column_index.3d.missing-table-category-before-valid"
     rk = "mr" if vars_[-2].kind == "mr" else "cat"
     ck = "mr" if vars_[-1].kind == "mr" else "cat"
-    return "column_index.%s.%sx%s%s" % (what, rk, ck, ".3d" if len(vars_) == 3 else "")
+    return "column_index.%s.%sx%s%s%s" % (what, rk, ck, ".3d" if len(vars_) == 3 else "", extra)
+
+
+def _is_derived(v, e):
+    """is base element e (position among the valid elements) of dimension variable v a derived MR item?"""
+    return v.kind == "mr" and e < len(v.items) and bool(v.items[e].get("derived"))
 
 
 def evaluate(case, louts, ctx):
@@ -164,7 +169,8 @@ def evaluate(case, louts, ctx):
         f4 = False
         if len(vars_) == 3 and vars_[0].kind != "mr" and vars_[0].valid_cat_pos[k] != k:
             unfixed = common.model_to_float(su.block_pick(model["column_index_unfixed"], ro, co))
-            f4 = common.deep_close(impl, unfixed)[0]
+            # (only where the pre-fix model differs from the fixed one: otherwise the coincidence says nothing)
+            f4 = common.deep_close(impl, unfixed)[0] and not common.deep_close(unfixed, md)[0]
         # -- inserted cells must be NaN; base cells must equal the spec ------------------------
         for ii, ri in enumerate(ro):
             for jj, cj in enumerate(co):
@@ -172,7 +178,9 @@ def evaluate(case, louts, ctx):
                 ok, _ = common.deep_close(impl[ii][jj], sp[ii][jj])
                 if not ok:
                     what = "inserted-not-nan" if ins else "base-cell"
-                    findings.append({"kind": "spec", "locus": _locus(vars_, k, what, f4),
+                    # a derived (inserted) MR subvariable is a BASE element: its cells carry an ordinary index
+                    extra = ".derived-element" if (not ins and (_is_derived(vars_[-2], ri) or _is_derived(vars_[-1], cj))) else ""
+                    findings.append({"kind": "spec", "locus": _locus(vars_, k, what, f4, extra),
                                      "detail": "partition %d cell (%d,%d) [block idx %d,%d]: impl=%r spec=%r" %
                                                (k, ii, jj, ri, cj, impl[ii][jj], sp[ii][jj])})
                     break
